@@ -27,6 +27,9 @@ the two known findings, stated as theorems below rather than hidden:
 `C07codec_eq_model`: outside those two answers of the model (`Err.lex`, `Err.offcurve`) the generated code IS `C.setBytes`.
 Every package's translation is the generic text of its family at its own `fp.Bytes` by `rfl` (Proofs/PointCodecGen.lean, `<curve>_setBytes`…),
 so an edit of one package's marshal.go breaks that package's `rfl`, an edit of the template breaks the refinement proof.
+`Bytes` / `RawBytes` (section 1b): the generated encoders write exactly `encCompressed` / `encRaw` of the model for every receiver pair with
+canonical coordinates (`EncodesC`, `EncodesR`; the flag OR-ed into the first byte = `code · 2^(8·fb−k)` added to the big-endian value, which
+needs `p ≤ 2^(8·fb−k)` of `Codec.OK`); `isZeroed` = "big-endian value zero", `isCompressed` = "flag is not an uncompressed one" for all 256 bytes.
 Not covered: secp256k1 (its own raw-only marshal.go), G2 (tower coordinate = sequence of element codecs), the stream Encoder / Decoder,
 `unsafeSetCompressedBytes` / `unsafeComputeY`.
 -/
@@ -132,6 +135,175 @@ theorem C07codec_setBytes_bw6_761 (P : Prims α) (C : Codec α) (R : Rel P C (go
 theorem C07codec_SetBytes_bw6_761 (P : Prims α) (pX pY : α) (buf : List UInt8) :
     GV.Gen.PointCodec.bw6_761.G1_SetBytes P pX pY buf = GV.Gen.PointCodec.bw6_761.G1_setBytes P pX pY buf true := rfl
 
+/-! ## 1b. every package's `Bytes` / `RawBytes` is the encoder of the model; `isZeroed`, `isCompressed` -/
+
+/-- `B` (a generated `Bytes` with its primitives fixed) writes the model's compressed encoding of the receiver read as a point -/
+def EncodesC (C : Codec α) (B : α → α → List UInt8) : Prop := ∀ x y, C.Valid x → B x y = C.encCompressed (C.mkPt x y)
+/-- the same for `RawBytes` (`Marshal`) -/
+def EncodesR (C : Codec α) (B : α → α → List UInt8) : Prop := ∀ x y, C.Valid x → C.Valid y → B x y = C.encRaw (C.mkPt x y)
+
+theorem C07codec_Bytes_bn254 (P : Prims α) (C : Codec α) (g : α → α) (R : Rel P C g) (h : C.OK) (hL : C.L = .two) (hfb : C.fb = 32) :
+    EncodesC C (GV.Gen.PointCodec.bn254.G1_Bytes P) := by
+  intro x y hx
+  rw [bn254_Bytes, ← hfb]
+  exact goBytes2_eq P C g R h hL x y hx
+
+theorem C07codec_RawBytes_bn254 (P : Prims α) (C : Codec α) (g : α → α) (R : Rel P C g) (hL : C.L = .two) (hfb : C.fb = 32) :
+    EncodesR C (GV.Gen.PointCodec.bn254.G1_RawBytes P) := by
+  intro x y hx hy
+  rw [bn254_RawBytes, ← hfb]
+  exact goRawBytes2_eq P C g R hL x y hx hy
+
+/-- `isZeroed(b, l)`: the big-endian value of `b :: l` is zero; `isCompressed(b)`: the flag of `b` is not an uncompressed one -/
+theorem C07codec_helpers_bn254 :
+    (∀ (b : UInt8) (l : List UInt8), GV.Gen.PointCodec.bn254.isZeroed b l = decide (beToNat (b :: l) = 0)) ∧
+    (∀ b : UInt8, GV.Gen.PointCodec.bn254.isCompressed b = (Layout.two.classify (b.toNat / 64) != .unc)) :=
+  ⟨fun b l => by rw [bn254_isZeroed, goIsZeroed_eq], by apply byte_forall; decide +kernel⟩
+
+theorem C07codec_Bytes_grumpkin (P : Prims α) (C : Codec α) (g : α → α) (R : Rel P C g) (h : C.OK) (hL : C.L = .two) (hfb : C.fb = 32) :
+    EncodesC C (GV.Gen.PointCodec.grumpkin.G1_Bytes P) := by
+  intro x y hx
+  rw [grumpkin_Bytes, ← hfb]
+  exact goBytes2_eq P C g R h hL x y hx
+
+theorem C07codec_RawBytes_grumpkin (P : Prims α) (C : Codec α) (g : α → α) (R : Rel P C g) (hL : C.L = .two) (hfb : C.fb = 32) :
+    EncodesR C (GV.Gen.PointCodec.grumpkin.G1_RawBytes P) := by
+  intro x y hx hy
+  rw [grumpkin_RawBytes, ← hfb]
+  exact goRawBytes2_eq P C g R hL x y hx hy
+
+/-- `isZeroed(b, l)`: the big-endian value of `b :: l` is zero; `isCompressed(b)`: the flag of `b` is not an uncompressed one -/
+theorem C07codec_helpers_grumpkin :
+    (∀ (b : UInt8) (l : List UInt8), GV.Gen.PointCodec.grumpkin.isZeroed b l = decide (beToNat (b :: l) = 0)) ∧
+    (∀ b : UInt8, GV.Gen.PointCodec.grumpkin.isCompressed b = (Layout.two.classify (b.toNat / 64) != .unc)) :=
+  ⟨fun b l => by rw [grumpkin_isZeroed, goIsZeroed_eq], by apply byte_forall; decide +kernel⟩
+
+theorem C07codec_Bytes_stark_curve (P : Prims α) (C : Codec α) (g : α → α) (R : Rel P C g) (h : C.OK) (hL : C.L = .two) (hfb : C.fb = 32) :
+    EncodesC C (GV.Gen.PointCodec.stark_curve.G1_Bytes P) := by
+  intro x y hx
+  rw [stark_curve_Bytes, ← hfb]
+  exact goBytes2_eq P C g R h hL x y hx
+
+theorem C07codec_RawBytes_stark_curve (P : Prims α) (C : Codec α) (g : α → α) (R : Rel P C g) (hL : C.L = .two) (hfb : C.fb = 32) :
+    EncodesR C (GV.Gen.PointCodec.stark_curve.G1_RawBytes P) := by
+  intro x y hx hy
+  rw [stark_curve_RawBytes, ← hfb]
+  exact goRawBytes2_eq P C g R hL x y hx hy
+
+/-- `isZeroed(b, l)`: the big-endian value of `b :: l` is zero; `isCompressed(b)`: the flag of `b` is not an uncompressed one -/
+theorem C07codec_helpers_stark_curve :
+    (∀ (b : UInt8) (l : List UInt8), GV.Gen.PointCodec.stark_curve.isZeroed b l = decide (beToNat (b :: l) = 0)) ∧
+    (∀ b : UInt8, GV.Gen.PointCodec.stark_curve.isCompressed b = (Layout.two.classify (b.toNat / 64) != .unc)) :=
+  ⟨fun b l => by rw [stark_curve_isZeroed, goIsZeroed_eq], by apply byte_forall; decide +kernel⟩
+
+theorem C07codec_Bytes_bls12_377 (P : Prims α) (C : Codec α) (g : α → α) (R : Rel P C g) (h : C.OK) (hL : C.L = .three) (hfb : C.fb = 48) :
+    EncodesC C (GV.Gen.PointCodec.bls12_377.G1_Bytes P) := by
+  intro x y hx
+  rw [bls12_377_Bytes, ← hfb]
+  exact goBytes3_eq P C g R h hL x y hx
+
+theorem C07codec_RawBytes_bls12_377 (P : Prims α) (C : Codec α) (g : α → α) (R : Rel P C g) (hL : C.L = .three) (hfb : C.fb = 48) :
+    EncodesR C (GV.Gen.PointCodec.bls12_377.G1_RawBytes P) := by
+  intro x y hx hy
+  rw [bls12_377_RawBytes, ← hfb]
+  exact goRawBytes3_eq P C g R hL x y hx hy
+
+/-- `isZeroed(b, l)`: the big-endian value of `b :: l` is zero; `isCompressed(b)`: the flag of `b` is not an uncompressed one -/
+theorem C07codec_helpers_bls12_377 :
+    (∀ (b : UInt8) (l : List UInt8), GV.Gen.PointCodec.bls12_377.isZeroed b l = decide (beToNat (b :: l) = 0)) ∧
+    (∀ b : UInt8, GV.Gen.PointCodec.bls12_377.isCompressed b = (!(Layout.three.classify (b.toNat / 32) == .unc || Layout.three.classify (b.toNat / 32) == .uncInf))) :=
+  ⟨fun b l => by rw [bls12_377_isZeroed, goIsZeroed_eq], by apply byte_forall; decide +kernel⟩
+
+theorem C07codec_Bytes_bls12_381 (P : Prims α) (C : Codec α) (g : α → α) (R : Rel P C g) (h : C.OK) (hL : C.L = .three) (hfb : C.fb = 48) :
+    EncodesC C (GV.Gen.PointCodec.bls12_381.G1_Bytes P) := by
+  intro x y hx
+  rw [bls12_381_Bytes, ← hfb]
+  exact goBytes3_eq P C g R h hL x y hx
+
+theorem C07codec_RawBytes_bls12_381 (P : Prims α) (C : Codec α) (g : α → α) (R : Rel P C g) (hL : C.L = .three) (hfb : C.fb = 48) :
+    EncodesR C (GV.Gen.PointCodec.bls12_381.G1_RawBytes P) := by
+  intro x y hx hy
+  rw [bls12_381_RawBytes, ← hfb]
+  exact goRawBytes3_eq P C g R hL x y hx hy
+
+/-- `isZeroed(b, l)`: the big-endian value of `b :: l` is zero; `isCompressed(b)`: the flag of `b` is not an uncompressed one -/
+theorem C07codec_helpers_bls12_381 :
+    (∀ (b : UInt8) (l : List UInt8), GV.Gen.PointCodec.bls12_381.isZeroed b l = decide (beToNat (b :: l) = 0)) ∧
+    (∀ b : UInt8, GV.Gen.PointCodec.bls12_381.isCompressed b = (!(Layout.three.classify (b.toNat / 32) == .unc || Layout.three.classify (b.toNat / 32) == .uncInf))) :=
+  ⟨fun b l => by rw [bls12_381_isZeroed, goIsZeroed_eq], by apply byte_forall; decide +kernel⟩
+
+theorem C07codec_Bytes_bls24_315 (P : Prims α) (C : Codec α) (g : α → α) (R : Rel P C g) (h : C.OK) (hL : C.L = .three) (hfb : C.fb = 40) :
+    EncodesC C (GV.Gen.PointCodec.bls24_315.G1_Bytes P) := by
+  intro x y hx
+  rw [bls24_315_Bytes, ← hfb]
+  exact goBytes3_eq P C g R h hL x y hx
+
+theorem C07codec_RawBytes_bls24_315 (P : Prims α) (C : Codec α) (g : α → α) (R : Rel P C g) (hL : C.L = .three) (hfb : C.fb = 40) :
+    EncodesR C (GV.Gen.PointCodec.bls24_315.G1_RawBytes P) := by
+  intro x y hx hy
+  rw [bls24_315_RawBytes, ← hfb]
+  exact goRawBytes3_eq P C g R hL x y hx hy
+
+/-- `isZeroed(b, l)`: the big-endian value of `b :: l` is zero; `isCompressed(b)`: the flag of `b` is not an uncompressed one -/
+theorem C07codec_helpers_bls24_315 :
+    (∀ (b : UInt8) (l : List UInt8), GV.Gen.PointCodec.bls24_315.isZeroed b l = decide (beToNat (b :: l) = 0)) ∧
+    (∀ b : UInt8, GV.Gen.PointCodec.bls24_315.isCompressed b = (!(Layout.three.classify (b.toNat / 32) == .unc || Layout.three.classify (b.toNat / 32) == .uncInf))) :=
+  ⟨fun b l => by rw [bls24_315_isZeroed, goIsZeroed_eq], by apply byte_forall; decide +kernel⟩
+
+theorem C07codec_Bytes_bls24_317 (P : Prims α) (C : Codec α) (g : α → α) (R : Rel P C g) (h : C.OK) (hL : C.L = .three) (hfb : C.fb = 40) :
+    EncodesC C (GV.Gen.PointCodec.bls24_317.G1_Bytes P) := by
+  intro x y hx
+  rw [bls24_317_Bytes, ← hfb]
+  exact goBytes3_eq P C g R h hL x y hx
+
+theorem C07codec_RawBytes_bls24_317 (P : Prims α) (C : Codec α) (g : α → α) (R : Rel P C g) (hL : C.L = .three) (hfb : C.fb = 40) :
+    EncodesR C (GV.Gen.PointCodec.bls24_317.G1_RawBytes P) := by
+  intro x y hx hy
+  rw [bls24_317_RawBytes, ← hfb]
+  exact goRawBytes3_eq P C g R hL x y hx hy
+
+/-- `isZeroed(b, l)`: the big-endian value of `b :: l` is zero; `isCompressed(b)`: the flag of `b` is not an uncompressed one -/
+theorem C07codec_helpers_bls24_317 :
+    (∀ (b : UInt8) (l : List UInt8), GV.Gen.PointCodec.bls24_317.isZeroed b l = decide (beToNat (b :: l) = 0)) ∧
+    (∀ b : UInt8, GV.Gen.PointCodec.bls24_317.isCompressed b = (!(Layout.three.classify (b.toNat / 32) == .unc || Layout.three.classify (b.toNat / 32) == .uncInf))) :=
+  ⟨fun b l => by rw [bls24_317_isZeroed, goIsZeroed_eq], by apply byte_forall; decide +kernel⟩
+
+theorem C07codec_Bytes_bw6_633 (P : Prims α) (C : Codec α) (g : α → α) (R : Rel P C g) (h : C.OK) (hL : C.L = .three) (hfb : C.fb = 80) :
+    EncodesC C (GV.Gen.PointCodec.bw6_633.G1_Bytes P) := by
+  intro x y hx
+  rw [bw6_633_Bytes, ← hfb]
+  exact goBytes3_eq P C g R h hL x y hx
+
+theorem C07codec_RawBytes_bw6_633 (P : Prims α) (C : Codec α) (g : α → α) (R : Rel P C g) (hL : C.L = .three) (hfb : C.fb = 80) :
+    EncodesR C (GV.Gen.PointCodec.bw6_633.G1_RawBytes P) := by
+  intro x y hx hy
+  rw [bw6_633_RawBytes, ← hfb]
+  exact goRawBytes3_eq P C g R hL x y hx hy
+
+/-- `isZeroed(b, l)`: the big-endian value of `b :: l` is zero; `isCompressed(b)`: the flag of `b` is not an uncompressed one -/
+theorem C07codec_helpers_bw6_633 :
+    (∀ (b : UInt8) (l : List UInt8), GV.Gen.PointCodec.bw6_633.isZeroed b l = decide (beToNat (b :: l) = 0)) ∧
+    (∀ b : UInt8, GV.Gen.PointCodec.bw6_633.isCompressed b = (!(Layout.three.classify (b.toNat / 32) == .unc || Layout.three.classify (b.toNat / 32) == .uncInf))) :=
+  ⟨fun b l => by rw [bw6_633_isZeroed, goIsZeroed_eq], by apply byte_forall; decide +kernel⟩
+
+theorem C07codec_Bytes_bw6_761 (P : Prims α) (C : Codec α) (g : α → α) (R : Rel P C g) (h : C.OK) (hL : C.L = .three) (hfb : C.fb = 96) :
+    EncodesC C (GV.Gen.PointCodec.bw6_761.G1_Bytes P) := by
+  intro x y hx
+  rw [bw6_761_Bytes, ← hfb]
+  exact goBytes3_eq P C g R h hL x y hx
+
+theorem C07codec_RawBytes_bw6_761 (P : Prims α) (C : Codec α) (g : α → α) (R : Rel P C g) (hL : C.L = .three) (hfb : C.fb = 96) :
+    EncodesR C (GV.Gen.PointCodec.bw6_761.G1_RawBytes P) := by
+  intro x y hx hy
+  rw [bw6_761_RawBytes, ← hfb]
+  exact goRawBytes3_eq P C g R hL x y hx hy
+
+/-- `isZeroed(b, l)`: the big-endian value of `b :: l` is zero; `isCompressed(b)`: the flag of `b` is not an uncompressed one -/
+theorem C07codec_helpers_bw6_761 :
+    (∀ (b : UInt8) (l : List UInt8), GV.Gen.PointCodec.bw6_761.isZeroed b l = decide (beToNat (b :: l) = 0)) ∧
+    (∀ b : UInt8, GV.Gen.PointCodec.bw6_761.isCompressed b = (!(Layout.three.classify (b.toNat / 32) == .unc || Layout.three.classify (b.toNat / 32) == .uncInf))) :=
+  ⟨fun b l => by rw [bw6_761_isZeroed, goIsZeroed_eq], by apply byte_forall; decide +kernel⟩
+
 /-! ## 2. the Go-exact decoder against the property -/
 
 /-- outside the two findings the generated code computes the decoder of the model (same point, same size, same error class) -/
@@ -216,6 +388,18 @@ theorem C07codec_roundtrip_raw {C : Codec α} {G} (h : C.OK) (hG : Refines C G) 
     ∃ x y, G pX pY (C.encRaw P ++ rest) sub = .ok (x, y, 2 * C.nbC) ∧ C.mkPt x y = P :=
   C07codec_accepts h hG pX pY _ sub P _ (C07_roundtrip_raw h sub P hP rest)
 
+/-- ROUND TRIP of the generated code on both sides: generated `setBytes` ∘ generated `Bytes` returns the point it was given (as a point:
+(0,0) = infinity), for every receiver pair that is a valid group element, whatever follows in the buffer -/
+theorem C07codec_roundtrip_gen_compressed {C : Codec α} {G B} (h : C.OK) (hG : Refines C G) (hB : EncodesC C B) (hL : C.L ≠ .raw)
+    (pX pY : α) (sub : Bool) (x y : α) (hx : C.Valid x) (hP : C.Good sub (C.mkPt x y)) (rest : List UInt8) :
+    ∃ x' y', G pX pY (B x y ++ rest) sub = .ok (x', y', C.nbC) ∧ C.mkPt x' y' = C.mkPt x y := by
+  rw [hB x y hx]; exact C07codec_roundtrip_compressed h hG hL pX pY sub _ hP rest
+
+theorem C07codec_roundtrip_gen_raw {C : Codec α} {G B} (h : C.OK) (hG : Refines C G) (hB : EncodesR C B)
+    (pX pY : α) (sub : Bool) (x y : α) (hx : C.Valid x) (hy : C.Valid y) (hP : C.Good sub (C.mkPt x y)) (rest : List UInt8) :
+    ∃ x' y', G pX pY (B x y ++ rest) sub = .ok (x', y', 2 * C.nbC) ∧ C.mkPt x' y' = C.mkPt x y := by
+  rw [hB x y hx hy]; exact C07codec_roundtrip_raw h hG pX pY sub _ hP rest
+
 /-- the result does not depend on what the receiver held (no state leaks into the decision) -/
 theorem C07codec_receiver_independent {C : Codec α} {G} (hG : Refines C G) (pX pY qX qY : α) (buf : List UInt8) (sub : Bool) :
     C.absR (G pX pY buf sub) = C.absR (G qX qY buf sub) := by rw [hG, hG]
@@ -280,6 +464,11 @@ example : goSetBytes2 1 toy.rhs toyPrims 7 7 [] true = .error .ErrShortBuffer :=
 /-- F2 on the toy curve: (1,3) is not on y² = x³ + 3, the generic Go text returns it, the model (property) answers `offcurve` -/
 example : goSetBytes2 1 toy.rhs toyPrims 7 7 [0x01, 0x03] false = .ok (1, 3, 2) ∧ toy.setBytes false [0x01, 0x03] = .error .offcurve :=
   ⟨by rfl, by rfl⟩
+example : goBytes2 1 toyPrims 1 2 = [0x81] ∧ goBytes2 1 toyPrims 1 11 = [0xc1] ∧ goBytes2 1 toyPrims 0 0 = [0x40] := ⟨by rfl, by rfl, by rfl⟩
+example : goRawBytes2 1 toyPrims 1 2 = [0x01, 0x02] ∧ goRawBytes2 1 toyPrims 0 0 = [0x00, 0x00] := ⟨by rfl, by rfl⟩
+example : EncodesC toy (goBytes2 1 toyPrims) ∧ EncodesR toy (goRawBytes2 1 toyPrims) :=
+  ⟨fun x y hx => goBytes2_eq toyPrims toy toy.rhs toyRel toy_OK rfl x y hx,
+   fun x y hx hy => goRawBytes2_eq toyPrims toy toy.rhs toyRel rfl x y hx hy⟩
 /-- the hypotheses of `C07codec_accept` / `_roundtrip_*` are satisfiable -/
 example : toy.OK ∧ Refines toy (goSetBytes2 1 toy.rhs toyPrims) ∧ toy.Good true (some (1, 2)) := ⟨toy_OK, toyRefines, toy_good⟩
 
